@@ -119,6 +119,11 @@ def run(P, C, tier):
         rt = kind_table(rights.can_sites(P, b))
         # the remote side additionally accepts a record whose target is unknown locally with the own-rows right
         C.ob("R5", "deletion-kinds:" + fn.split("::")[-1], rt == dl and dl == rights.WANT_KINDS, b.loc(), "local %s vs remote %s" % (sorted(dl), sorted(rt)))
+        # both paths decide a deletion at the date of the deletion (the local path: the date of the operation, which is the
+        # date stored in the record), never at the date of the deleted row
+        rdates = sorted({s["date"] for s in rights.can_sites(P, b) if s["kind"] == "can"})
+        C.ob("R5", "deletion-date:" + fn.split("::")[-1], bool(rdates) and all(d.endswith("deletion_date") for d in rdates), b.loc(),
+             "remote deletion decisions at %s (the local path decides at the operation date, stored as deletion_date)" % rdates)
     # R6 value shapes
     try:
         vj = P.body("data_model_parser::validate_json_for_entity")
